@@ -215,8 +215,11 @@ impl Types {
             }
             MemberKind::Int(n) => {
                 let value = permissive::deserialize::<I256, _>(value)?;
+                // NOTE: A value is in `[-2^(n-1), 2^(n-1))` if and only if its
+                // bits from `n - 1` upwards are all copies of the sign bit.
+                let sign = value >> (n - 1);
                 ensure!(
-                    value.unsigned_abs().leading_zeros() + n >= 256,
+                    sign == I256::ZERO || sign == I256::MINUS_ONE,
                     "value {value:#x} overflows int{n}",
                 );
                 value.to_be_bytes()
